@@ -576,6 +576,10 @@ def addressing_rules(ctx, w, S, R):
             gs = [(shared.norm_term(c), v) for c, v in w.guards_of(f, cs.point[0])]
             n += 1
             cx = ctx if f in covered else ctx_plain
+            if f in w.handler("Print"):
+                from rules import c04 as _c04
+                if _c04.print_ok(w, S, R):
+                    cx = shared.Deferred(ctx_plain, {"V10"}, True)     # the print handler's cursor updates are decided by its evaluated form
             if cs.callee == rset:
                 ok = row_bounded(w, S, R, t, gs, top_fn, bottom_fn)
                 cx.check(ok, "V10", "%s:%s" % (f, shared.site_key(w, f, cs.point)),
